@@ -25,6 +25,9 @@ def domain_of(prop):
     if prop in ("C06", "C07"):
         from . import joins
         return joins
+    if prop == "C10":
+        from . import conc
+        return conc
     if prop == "C16":
         from . import cs
         return cs
